@@ -747,4 +747,902 @@ theorem close_after_open_unique (bs : List Backend) (i : Nat) (b : Backend) (hb 
       simp only [updAt, updFirst, hne]
       simp [ih i hb huniq.2]
 
+/-! ### generic preservation machinery for whole-map, whole-history statements -/
+
+def Pres {β : Type} (g : Backend → β) (f : Backend → Backend) : Prop := ∀ b, g (f b) = g b
+
+theorem map_updAt_pres {β : Type} {g : Backend → β} {f : Backend → Backend} (hf : Pres g f) (i : Nat)
+    (l : List Backend) : (updAt f i l).map g = l.map g := by
+  induction l generalizing i with
+  | nil => cases i <;> rfl
+  | cons b t ih =>
+    cases i with
+    | zero => simp [updAt, hf b]
+    | succ i => simp [updAt, ih]
+
+theorem map_updFirst_pres {β : Type} {g : Backend → β} {f : Backend → Backend} (hf : Pres g f)
+    (p : Backend → Bool) (l : List Backend) : (updFirst p f l).map g = l.map g := by
+  induction l with
+  | nil => rfl
+  | cons b t ih =>
+    simp only [updFirst]
+    split
+    · simp [hf b]
+    · simp [ih]
+
+theorem map_map_pres {β : Type} {g : Backend → β} {f : Backend → Backend} (hf : Pres g f) (l : List Backend) :
+    (l.map f).map g = l.map g := by
+  simp [List.map_map, Function.comp_def, hf _]
+
+theorem mem_updAt {f : Backend → Backend} {i : Nat} {l : List Backend} {x : Backend} (h : x ∈ updAt f i l) :
+    x ∈ l ∨ ∃ b ∈ l, x = f b := by
+  induction l generalizing i with
+  | nil => cases i <;> simp [updAt] at h
+  | cons b t ih =>
+    cases i with
+    | zero =>
+      simp only [updAt, List.mem_cons] at h
+      rcases h with h | h
+      · exact Or.inr ⟨b, by simp, h⟩
+      · exact Or.inl (by simp [h])
+    | succ i =>
+      simp only [updAt, List.mem_cons] at h
+      rcases h with h | h
+      · exact Or.inl (by simp [h])
+      · rcases ih h with h1 | ⟨y, hy, he⟩
+        · exact Or.inl (by simp [h1])
+        · exact Or.inr ⟨y, by simp [hy], he⟩
+
+theorem mem_updFirst {p : Backend → Bool} {f : Backend → Backend} {l : List Backend} {x : Backend}
+    (h : x ∈ updFirst p f l) : x ∈ l ∨ ∃ b ∈ l, x = f b := by
+  induction l with
+  | nil => simp [updFirst] at h
+  | cons b t ih =>
+    simp only [updFirst] at h
+    split at h
+    · simp only [List.mem_cons] at h
+      rcases h with h | h
+      · exact Or.inr ⟨b, by simp, h⟩
+      · exact Or.inl (by simp [h])
+    · simp only [List.mem_cons] at h
+      rcases h with h | h
+      · exact Or.inl (by simp [h])
+      · rcases ih h with h1 | ⟨y, hy, he⟩
+        · exact Or.inl (by simp [h1])
+        · exact Or.inr ⟨y, by simp [hy], he⟩
+
+/-- every backend of every cluster satisfies `P` -/
+def AllB (P : Backend → Prop) (s : State) : Prop := ∀ c l, s.get c = some l → ∀ b ∈ l.backends, P b
+
+/-- `P` is kept by every way the op interpreter creates or rewrites a backend -/
+structure Stable (P : Backend → Prop) : Prop where
+  new : ∀ now id a st w bk, P (Backend.new now id a st w bk)
+  upd : ∀ b st w bk, P b → P { b with sticky := st, weight := w, backup := bk }
+  check : ∀ b ok thr, P b → P (recordCheck b ok thr).1
+  reset : ∀ b, P b → P (resetHealth b)
+  retry : ∀ b now w, P b → P { b with retry := b.retry.fail now w }
+  succ : ∀ b now, P b → P { b with retry := b.retry.succeed now }
+  inc : ∀ b, P b → P (incConn b).1
+  dec : ∀ b, P b → P (decConn b).1
+  closing : ∀ b, P b → P (setClosing b)
+  reqs : ∀ b n, P b → P { b with reqs := n }
+
+theorem allB_put {P : Backend → Prop} {s : State} {c : Nat} {l : BList} (h : AllB P s)
+    (hl : ∀ b ∈ l.backends, P b) : AllB P (s.put c l) := by
+  intro c' l' hg b hb
+  rw [get_put] at hg
+  by_cases hc : c' = c
+  · simp [hc] at hg; subst hg; exact hl b hb
+  · simp [hc] at hg; exact h c' l' hg b hb
+
+theorem allB_onBackend {P : Backend → Prop} {s : State} {c i : Nat} {f : Backend → Backend} {g : Backend → Out}
+    (hf : ∀ b, P b → P (f b)) (h : AllB P s) : AllB P (onBackend s c i f g).1 := by
+  unfold onBackend
+  cases hg : s.get c with
+  | none => exact h
+  | some l =>
+    simp only
+    cases hb : l.backends[i]? with
+    | none => exact h
+    | some b0 =>
+      simp only
+      apply allB_put h
+      intro x hx
+      rcases mem_updAt hx with h1 | ⟨y, hy, he⟩
+      · exact h c l hg x h1
+      · exact he ▸ hf y (h c l hg y hy)
+
+theorem allB_getD {P : Backend → Prop} {s : State} {c : Nat} (h : AllB P s) :
+    ∀ b ∈ ((s.get c).getD BList.new).backends, P b := by
+  cases hg : s.get c with
+  | none => intro b hb; simp [BList.new] at hb
+  | some l => exact h c l hg
+
+theorem allB_step {P : Backend → Prop} (hP : Stable P) {s : State} (op : Op) (h : AllB P s) :
+    AllB P (step s op).1 := by
+  cases op with
+  | tick d => exact h
+  | add c id a st w bk =>
+    simp only [step]
+    apply allB_put h
+    intro x hx
+    unfold addBackend at hx
+    simp only at hx
+    split at hx
+    · rcases mem_updFirst hx with h1 | ⟨y, hy, he⟩
+      · exact allB_getD h x h1
+      · exact he ▸ hP.upd y _ _ _ (allB_getD h y hy)
+    · rcases List.mem_append.mp hx with h1 | h1
+      · exact allB_getD h x h1
+      · simp at h1; exact h1 ▸ hP.new _ _ _ _ _ _
+  | remove c a =>
+    simp only [step]
+    cases hg : s.get c with
+    | none => exact h
+    | some l =>
+      simp only
+      apply allB_put h
+      intro x hx
+      simp only [removeBackend, List.mem_filter] at hx
+      exact h c l hg x hx.1
+  | setPolicy c k m =>
+    simp only [step]
+    apply allB_put h
+    simpa [setPolicy] using allB_getD (c := c) h
+  | health c a ok thr =>
+    simp only [step]
+    cases hg : s.get c with
+    | none => exact h
+    | some l =>
+      simp only
+      cases hf : findBackend l a with
+      | none => exact h
+      | some b =>
+        simp only
+        apply allB_put h
+        intro x hx
+        rcases mem_updFirst hx with h1 | ⟨y, hy, he⟩
+        · exact h c l hg x h1
+        · exact he ▸ hP.check y ok thr (h c l hg y hy)
+  | healthOff c =>
+    simp only [step]
+    cases hg : s.get c with
+    | none => exact h
+    | some l =>
+      simp only
+      apply allB_put h
+      intro x hx
+      obtain ⟨y, hy, he⟩ := List.mem_map.mp hx
+      exact he ▸ hP.reset y (h c l hg y hy)
+  | fail c i w => exact allB_onBackend (fun b hb => hP.retry b _ _ hb) h
+  | succeed c i => exact allB_onBackend (fun b hb => hP.succ b _ hb) h
+  | inc c i => exact allB_onBackend hP.inc h
+  | dec c i => exact allB_onBackend hP.dec h
+  | closing c i => exact allB_onBackend hP.closing h
+  | reqInc c i => exact allB_onBackend (fun b hb => hP.reqs b _ hb) h
+  | reqDec c i => exact allB_onBackend (fun b hb => hP.reqs b _ hb) h
+  | closeAddr c a =>
+    simp only [step]
+    cases hg : s.get c with
+    | none => exact h
+    | some l =>
+      simp only
+      apply allB_put h
+      intro x hx
+      rcases mem_updFirst hx with h1 | ⟨y, hy, he⟩
+      · exact h c l hg x h1
+      · exact he ▸ hP.dec y (h c l hg y hy)
+  | select c e =>
+    simp only [step]
+    cases hg : s.get c with
+    | none => exact h
+    | some l =>
+      simp only
+      apply allB_put h
+      rw [selectChoices_backends]; exact h c l hg
+  | sticky c st e =>
+    simp only [step]
+    cases hg : s.get c with
+    | none => exact h
+    | some l =>
+      simp only
+      cases hf : findSticky l st s.now with
+      | some b => exact h
+      | none =>
+        simp only
+        apply allB_put h
+        rw [selectChoices_backends]; exact h c l hg
+
+theorem allB_run {P : Backend → Prop} (hP : Stable P) (ops : List Op) {s : State} (h : AllB P s) :
+    AllB P (run s ops) := by
+  induction ops generalizing s with
+  | nil => exact h
+  | cons o t ih => simp only [run, List.foldl_cons]; exact ih (allB_step hP o h)
+
+theorem allB_init (P : Backend → Prop) : AllB P State.init := by
+  intro c l hg; simp [State.init, State.get] at hg
+
+/-- a health result rewrites the health fields only -/
+theorem recordCheck_frame (b : Backend) (ok : Bool) (thr : Nat) :
+    (recordCheck b ok thr).1.id = b.id ∧ (recordCheck b ok thr).1.addr = b.addr ∧
+    (recordCheck b ok thr).1.status = b.status ∧ (recordCheck b ok thr).1.conns = b.conns ∧
+    (recordCheck b ok thr).1.reqs = b.reqs ∧ (recordCheck b ok thr).1.retry = b.retry ∧
+    (recordCheck b ok thr).1.sticky = b.sticky ∧ (recordCheck b ok thr).1.weight = b.weight ∧
+    (recordCheck b ok thr).1.backup = b.backup := by
+  have h1 : ∀ r, r = (recordSuccess b thr).1 → r.id = b.id ∧ r.addr = b.addr ∧ r.status = b.status ∧
+      r.conns = b.conns ∧ r.reqs = b.reqs ∧ r.retry = b.retry ∧ r.sticky = b.sticky ∧ r.weight = b.weight ∧
+      r.backup = b.backup := by
+    intro r hr; subst hr; unfold recordSuccess; simp only; split <;> simp
+  have h2 : ∀ r, r = (recordFailure b thr).1 → r.id = b.id ∧ r.addr = b.addr ∧ r.status = b.status ∧
+      r.conns = b.conns ∧ r.reqs = b.reqs ∧ r.retry = b.retry ∧ r.sticky = b.sticky ∧ r.weight = b.weight ∧
+      r.backup = b.backup := by
+    intro r hr; subst hr; unfold recordFailure; simp only; split <;> simp
+  unfold recordCheck
+  cases ok
+  · exact h2 _ rfl
+  · exact h1 _ rfl
+
+/-- a Closed backend holds no connection -/
+def ClosedEmpty (b : Backend) : Prop := b.status = .closed → b.conns = 0
+
+theorem stable_closedEmpty : Stable ClosedEmpty where
+  new := by intro now id a st w bk h; simp [Backend.new] at h
+  upd := by intro b st w bk h; exact h
+  check := by
+    intro b ok thr h
+    have h1 := recordCheck_frame b ok thr
+    intro hc; rw [h1.2.2.2.1]; exact h (h1.2.2.1 ▸ hc)
+  reset := by intro b h; exact h
+  retry := by intro b now w h; exact h
+  succ := by intro b now h; exact h
+  inc := by
+    intro b h; unfold incConn
+    by_cases hn : b.status = .normal
+    · simp only [hn, if_true]; intro hc; simp [hn] at hc
+    · simp only [hn, if_false]; exact h
+  dec := by
+    intro b h; unfold decConn
+    cases hst : b.status with
+    | normal => intro hc; simp [hst] at hc
+    | closed => simp only; exact h
+    | closing =>
+      simp only
+      split
+      · next h0 => intro _; exact h0
+      · intro hc; simp [hst] at hc
+  closing := by intro b h hc; simp [setClosing] at hc
+  reqs := by intro b n h; exact h
+
+/-- the back-off policy never exceeds its try budget -/
+def TriesBounded (b : Backend) : Prop := b.retry.tries ≤ b.retry.max
+
+theorem stable_triesBounded : Stable TriesBounded where
+  new := by intro now id a st w bk; simp [TriesBounded, Backend.new, Retry.new]
+  upd := by intro b st w bk h; exact h
+  check := by
+    intro b ok thr h
+    have h1 := (recordCheck_frame b ok thr).2.2.2.2.2.1
+    simpa [TriesBounded, h1] using h
+  reset := by intro b h; exact h
+  retry := by
+    intro b now w h
+    simp only [TriesBounded, Retry.fail] at h ⊢
+    split
+    · exact h
+    · simp only; omega
+  succ := by intro b now h; simp [TriesBounded, Retry.succeed]
+  inc := by intro b h; unfold incConn; split <;> exact h
+  dec := by intro b h; unfold decConn; split <;> (try split) <;> exact h
+  closing := by intro b h; exact h
+  reqs := by intro b n h; exact h
+
+/-! ### counters are touched by the counter ops only -/
+
+/-- identity and load of a backend -/
+def ctr (b : Backend) : Nat × Nat × Nat × Nat := (b.id, b.addr, b.conns, b.reqs)
+
+def ctrsOf (s : State) (c : Nat) : List (Nat × Nat × Nat × Nat) :=
+  ((s.get c).map (fun l => l.backends.map ctr)).getD []
+
+/-- ops that may change the membership or a counter of cluster `c` -/
+def Op.touchesCounters (c : Nat) : Op → Bool
+  | .add c' _ _ _ _ _ => c' == c
+  | .remove c' _ => c' == c
+  | .inc c' _ => c' == c
+  | .dec c' _ => c' == c
+  | .reqInc c' _ => c' == c
+  | .reqDec c' _ => c' == c
+  | .closeAddr c' _ => c' == c
+  | _ => false
+
+theorem ctrsOf_put_other {s : State} {c c' : Nat} {l : BList} (h : c ≠ c') : ctrsOf (s.put c' l) c = ctrsOf s c := by
+  simp [ctrsOf, get_put, h]
+
+theorem ctrsOf_put_same {s : State} {c : Nat} {l l' : BList} (hg : s.get c = some l)
+    (h : l'.backends.map ctr = l.backends.map ctr) : ctrsOf (s.put c l') c = ctrsOf s c := by
+  simp [ctrsOf, get_put, hg, h]
+
+theorem ctrsOf_put {s : State} {c c' : Nat} {l l' : BList} (hg : s.get c' = some l)
+    (h : l'.backends.map ctr = l.backends.map ctr) : ctrsOf (s.put c' l') c = ctrsOf s c := by
+  by_cases hc : c = c'
+  · subst hc; exact ctrsOf_put_same hg h
+  · exact ctrsOf_put_other hc
+
+theorem ctrsOf_onBackend {s : State} {c c' i : Nat} {f : Backend → Backend} {g : Backend → Out}
+    (hf : c ≠ c' ∨ Pres ctr f) : ctrsOf (onBackend s c' i f g).1 c = ctrsOf s c := by
+  unfold onBackend
+  cases hg : s.get c' with
+  | none => rfl
+  | some l =>
+    simp only
+    cases hb : l.backends[i]? with
+    | none => rfl
+    | some b =>
+      simp only
+      rcases hf with hne | hp
+      · exact ctrsOf_put_other hne
+      · exact ctrsOf_put hg (map_updAt_pres hp i l.backends)
+
+theorem recordCheck_ctr (b : Backend) (ok : Bool) (thr : Nat) : ctr (recordCheck b ok thr).1 = ctr b := by
+  have h := recordCheck_frame b ok thr
+  simp [ctr, h.1, h.2.1, h.2.2.2.1, h.2.2.2.2.1]
+
+theorem ctrs_step {s : State} {c : Nat} (op : Op) (hop : op.touchesCounters c = false) :
+    ctrsOf (step s op).1 c = ctrsOf s c := by
+  cases op with
+  | tick d => rfl
+  | add c' id a st w bk =>
+    simp [Op.touchesCounters] at hop
+    simp only [step]; exact ctrsOf_put_other (fun e => hop e.symm)
+  | remove c' a =>
+    simp [Op.touchesCounters] at hop
+    simp only [step]
+    cases hg : s.get c' with
+    | none => rfl
+    | some l => exact ctrsOf_put_other (fun e => hop e.symm)
+  | setPolicy c' k m =>
+    simp only [step]
+    cases hg : s.get c' with
+    | none =>
+      by_cases hc : c = c'
+      · subst hc; simp [ctrsOf, get_put, hg, setPolicy, BList.new]
+      · exact ctrsOf_put_other hc
+    | some l => exact ctrsOf_put hg (by simp [setPolicy])
+  | health c' a ok thr =>
+    simp only [step]
+    cases hg : s.get c' with
+    | none => rfl
+    | some l =>
+      simp only
+      cases hf : findBackend l a with
+      | none => rfl
+      | some b => exact ctrsOf_put hg (map_updFirst_pres (fun b => recordCheck_ctr b ok thr) _ _)
+  | healthOff c' =>
+    simp only [step]
+    cases hg : s.get c' with
+    | none => rfl
+    | some l => exact ctrsOf_put hg (map_map_pres (f := resetHealth) (fun b => rfl) _)
+  | fail c' i w => exact ctrsOf_onBackend (Or.inr (fun b => rfl))
+  | succeed c' i => exact ctrsOf_onBackend (Or.inr (fun b => rfl))
+  | inc c' i => simp [Op.touchesCounters] at hop; exact ctrsOf_onBackend (Or.inl (fun e => hop e.symm))
+  | dec c' i => simp [Op.touchesCounters] at hop; exact ctrsOf_onBackend (Or.inl (fun e => hop e.symm))
+  | closing c' i => exact ctrsOf_onBackend (Or.inr (fun b => rfl))
+  | reqInc c' i => simp [Op.touchesCounters] at hop; exact ctrsOf_onBackend (Or.inl (fun e => hop e.symm))
+  | reqDec c' i => simp [Op.touchesCounters] at hop; exact ctrsOf_onBackend (Or.inl (fun e => hop e.symm))
+  | closeAddr c' a =>
+    simp [Op.touchesCounters] at hop
+    simp only [step]
+    cases hg : s.get c' with
+    | none => rfl
+    | some l => exact ctrsOf_put_other (fun e => hop e.symm)
+  | select c' e =>
+    simp only [step]
+    cases hg : s.get c' with
+    | none => rfl
+    | some l => exact ctrsOf_put hg (by rw [selectChoices_backends])
+  | sticky c' st e =>
+    simp only [step]
+    cases hg : s.get c' with
+    | none => rfl
+    | some l =>
+      simp only
+      cases hf : findSticky l st s.now with
+      | some b => rfl
+      | none => exact ctrsOf_put hg (by rw [selectChoices_backends])
+
+theorem ctrs_run {c : Nat} (ops : List Op) (s : State) (hops : ∀ o ∈ ops, o.touchesCounters c = false) :
+    ctrsOf (run s ops) c = ctrsOf s c := by
+  induction ops generalizing s with
+  | nil => rfl
+  | cons o t ih =>
+    have h1 := ih (step s o).1 (fun o' ho' => hops o' (List.mem_cons_of_mem _ ho'))
+    simp only [run, List.foldl_cons] at h1 ⊢
+    rw [h1]
+    exact ctrs_step o (hops o (by simp))
+
+/-! ### a non-empty candidate list always yields a backend -/
+
+theorem rrPick_some {n : Nat} {cs : List Backend} (h : cs ≠ []) : ∃ b, (rrPick n cs).1 = some b := by
+  unfold rrPick
+  have hl : 0 < cs.length := List.length_pos_iff.mpr h
+  have he : cs.isEmpty = false := by cases cs <;> simp at h ⊢
+  simp only [he, Bool.false_eq_true, if_false]
+  exact ⟨cs[n % cs.length]'(Nat.mod_lt _ hl), List.getElem?_eq_getElem _⟩
+
+theorem getElem?_mod_some {k : Nat} {cs : List Backend} (h : cs ≠ []) : ∃ b, cs[k % cs.length]? = some b := by
+  have hl : 0 < cs.length := List.length_pos_iff.mpr h
+  exact ⟨cs[k % cs.length]'(Nat.mod_lt _ hl), List.getElem?_eq_getElem _⟩
+
+theorem foldl_p2c_first (m : Backend → Nat) (l : List Backend) (st : Option Backend × Option Backend)
+    (h : st.1.isSome = true) : (l.foldl (p2cStep m) st).1.isSome = true := by
+  induction l generalizing st with
+  | nil => simpa using h
+  | cons x t ih =>
+    simp only [List.foldl_cons]
+    apply ih
+    obtain ⟨f, sd⟩ := st
+    cases f with
+    | none => simp at h
+    | some f => cases sd <;> simp only [p2cStep] <;> split <;> rfl
+
+theorem p2cChoices_ne_nil {m : Backend → Nat} {cs : List Backend} (h : cs ≠ []) : p2cChoices m cs ≠ [] := by
+  cases cs with
+  | nil => exact absurd rfl h
+  | cons x t =>
+    have h1 : (p2cPair m (x :: t)).1.isSome = true := by
+      simp only [p2cPair, List.foldl_cons]
+      exact foldl_p2c_first m t _ (by simp [p2cStep])
+    unfold p2cChoices
+    generalize p2cPair m (x :: t) = pr at h1
+    obtain ⟨f, sd⟩ := pr
+    cases f <;> cases sd <;> simp at h1 ⊢
+
+theorem exists_pos_of_sum_ne_zero (ws : List Int) (hn : ∀ x ∈ ws, 0 ≤ x) (hs : ws.sum ≠ 0) : ∃ x ∈ ws, 0 < x := by
+  induction ws with
+  | nil => simp at hs
+  | cons a t ih =>
+    by_cases ha : 0 < a
+    · exact ⟨a, by simp, ha⟩
+    · have h0 : a = 0 := by have := hn a (by simp); omega
+      have : t.sum ≠ 0 := by simpa [h0] using hs
+      obtain ⟨x, hx, hp⟩ := ih (fun x hx => hn x (List.mem_cons_of_mem _ hx)) this
+      exact ⟨x, List.mem_cons_of_mem _ hx, hp⟩
+
+theorem randomChoices_ne_nil {cs : List Backend} (h : cs ≠ []) : randomChoices cs ≠ [] := by
+  unfold randomChoices
+  simp only
+  split
+  · exact h
+  · next hc =>
+    simp only [Bool.or_eq_true, not_or, Bool.not_eq_true] at hc
+    obtain ⟨⟨h1, h2⟩, _⟩ := hc
+    have hn : ∀ x ∈ cs.map wOf, 0 ≤ x := by
+      intro x hx
+      have := List.any_eq_false.mp h1 x hx
+      simpa using this
+    have hs : (cs.map wOf).sum ≠ 0 := by simpa using h2
+    obtain ⟨x, hx, hp⟩ := exists_pos_of_sum_ne_zero _ hn hs
+    obtain ⟨b, hb, he⟩ := List.mem_map.mp hx
+    intro hnil
+    have : b ∈ cs.filter (fun b => wOf b > 0) := List.mem_filter.mpr ⟨hb, by simpa [he] using hp⟩
+    rw [hnil] at this; simp at this
+
+theorem lbChoices_ne_nil (p : Policy) (e : Env) {cs : List Backend} (h : cs ≠ []) : (lbChoices p e cs).2 ≠ [] := by
+  have he : cs.isEmpty = false := by cases cs <;> simp at h ⊢
+  unfold lbChoices
+  cases p with
+  | roundRobin n => obtain ⟨b, hb⟩ := rrPick_some (n := n) h; simp [hb]
+  | random => exact randomChoices_ne_nil h
+  | leastLoaded m =>
+    simp only
+    split
+    · cases cs with
+      | nil => exact absurd rfl h
+      | cons x t => simp [minFirst]
+    · exact h
+  | powerOfTwo m =>
+    simp only
+    split
+    · exact p2cChoices_ne_nil h
+    · exact h
+  | hrw n =>
+    simp only
+    split
+    · obtain ⟨b, hb⟩ := rrPick_some (n := n) h; simp [hb]
+    · cases cs with
+      | nil => exact absurd rfl h
+      | cons x t => simp [maxFirst]
+  | maglev built n =>
+    simp only
+    split
+    · obtain ⟨b, hb⟩ := rrPick_some (n := n) h; simp [hb]
+    · next k _ =>
+      simp only [he, Bool.false_eq_true, if_false]
+      split
+      · simp
+      · obtain ⟨b, hb⟩ := getElem?_mod_some (k := k) h; simp [hb]
+
+theorem pick_some {l : List Backend} (r : Nat) (h : l ≠ []) : ∃ b, pick l r = some b := by
+  have hl : 0 < l.length := List.length_pos_iff.mpr h
+  exact ⟨l[r % l.length]'(Nat.mod_lt _ hl), List.getElem?_eq_getElem _⟩
+
+theorem selectChoices_ne_nil (l : BList) (now : Nat) (e : Env) (h : candidates now l.backends ≠ []) :
+    (selectChoices l now e).2 ≠ [] := by
+  have he : (candidates now l.backends).isEmpty = false := by
+    cases hc : candidates now l.backends <;> simp [hc] at h ⊢
+  unfold selectChoices
+  simp only [he, Bool.false_eq_true, if_false]
+  exact lbChoices_ne_nil _ _ h
+
+/-- the candidate list is empty exactly when the fail-open set is -/
+theorem candidates_eq_nil_iff (now : Nat) (bs : List Backend) :
+    candidates now bs = [] ↔ ∀ b ∈ bs, ¬ FailOpenOk now b := by
+  constructor
+  · intro h b hb hf
+    have hm : b ∈ failOpen now bs := mem_failOpen.mpr ⟨hb, hf.1, (okay_iff _ _).mpr hf.2⟩
+    rcases candidates_cases now bs with ⟨h1, hc⟩ | ⟨_, h2, hc⟩ | ⟨_, _, hc⟩
+    · rw [h] at hc; rw [← hc] at h1; simp at h1
+    · rw [h] at hc; rw [← hc] at h2; simp at h2
+    · rw [h] at hc; rw [← hc] at hm; simp at hm
+  · intro h
+    cases hc : candidates now bs with
+    | nil => rfl
+    | cons x t =>
+      have hx : x ∈ candidates now bs := by rw [hc]; simp
+      obtain ⟨hm, hor⟩ := mem_candidates hx
+      rcases hor with ho | ⟨_, hn, hk⟩
+      · have := (canOpen_iff now x).mp ho
+        exact absurd ⟨this.2.1, this.2.2⟩ (h x hm)
+      · exact absurd ⟨hn, (okay_iff _ _).mp hk⟩ (h x hm)
+
+theorem select_picked_none_iff (s : State) (c : Nat) (e : Env) :
+    (step s (.select c e)).2.picked = none ↔ ∀ l, s.get c = some l → ∀ b ∈ l.backends, ¬ FailOpenOk s.now b := by
+  simp only [step]
+  cases hl : s.get c with
+  | none => simp [Out.picked]
+  | some l =>
+    simp only [Out.picked]
+    constructor
+    · intro h l' hl'; cases hl'
+      rw [← candidates_eq_nil_iff]
+      cases hc : candidates s.now l.backends with
+      | nil => rfl
+      | cons x t =>
+        obtain ⟨b, hb⟩ := pick_some e.rnd (selectChoices_ne_nil l s.now e (by rw [hc]; simp))
+        rw [hb] at h; cases h
+    · intro h
+      have := (candidates_eq_nil_iff s.now l.backends).mpr (h l rfl)
+      simp [selectChoices, this, pick]
+
+theorem fail_open_iff (s : State) (c : Nat) (e : Env) :
+    (∃ b, (step s (.select c e)).2.picked = some b ∧ ¬ Eligible s.now b) ↔
+    ∃ l, s.get c = some l ∧ (∀ x ∈ l.backends, ¬ Eligible s.now x) ∧ (∃ x ∈ l.backends, FailOpenOk s.now x) := by
+  constructor
+  · rintro ⟨b, hp, hne⟩
+    obtain ⟨l, hl, hc⟩ := select_spec hp
+    obtain ⟨hm, hor⟩ := mem_candidates hc
+    rcases hor with ho | ⟨hall, hn, hk⟩
+    · exact absurd ((eligible_iff _ _).mpr ho) hne
+    · exact ⟨l, hl, fun x hx => not_eligible_of _ _ (hall x hx), b, hm, hn, (okay_iff _ _).mp hk⟩
+  · rintro ⟨l, hl, hall, x, hx, hf⟩
+    cases hp : (step s (.select c e)).2.picked with
+    | none =>
+      exact absurd hf ((select_picked_none_iff s c e).mp hp l hl x hx)
+    | some b =>
+      obtain ⟨l', hl', hc⟩ := select_spec hp
+      rw [hl] at hl'; cases hl'
+      exact ⟨b, rfl, hall b (mem_candidates hc).1⟩
+
+/-- exact membership in the cascade's candidate list -/
+theorem mem_candidates_iff (now : Nat) (bs : List Backend) (b : Backend) :
+    b ∈ candidates now bs ↔ b ∈ bs ∧
+      (((∃ x ∈ bs, x.backup = false ∧ Eligible now x) ∧ b.backup = false ∧ Eligible now b) ∨
+       ((∀ x ∈ bs, x.backup = false → ¬ Eligible now x) ∧ (∃ x ∈ bs, x.backup = true ∧ Eligible now x) ∧
+          b.backup = true ∧ Eligible now b) ∨
+       ((∀ x ∈ bs, ¬ Eligible now x) ∧ FailOpenOk now b)) := by
+  have hne : ∀ bk, (available now bs bk).isEmpty = false ↔ ∃ x ∈ bs, x.backup = bk ∧ Eligible now x := by
+    intro bk
+    constructor
+    · intro h
+      cases ha : available now bs bk with
+      | nil => simp [ha] at h
+      | cons x t =>
+        have hx : x ∈ available now bs bk := by rw [ha]; simp
+        have := mem_available.mp hx
+        exact ⟨x, this.1, this.2.1, (eligible_iff _ _).mpr this.2.2⟩
+    · rintro ⟨x, hx, hb, he⟩
+      have : x ∈ available now bs bk := mem_available.mpr ⟨hx, hb, (eligible_iff _ _).mp he⟩
+      cases ha : available now bs bk with
+      | nil => rw [ha] at this; simp at this
+      | cons y t => rfl
+  have hem : ∀ bk, (available now bs bk).isEmpty = true ↔ ∀ x ∈ bs, x.backup = bk → ¬ Eligible now x := by
+    intro bk
+    constructor
+    · intro h x hx hb; exact not_eligible_of _ _ (available_empty h x hx hb)
+    · intro h
+      cases ha : (available now bs bk).isEmpty with
+      | true => rfl
+      | false => obtain ⟨x, hx, hb, he⟩ := (hne bk).mp ha; exact absurd he (h x hx hb)
+  rcases candidates_cases now bs with ⟨h1, hc⟩ | ⟨h1, h2, hc⟩ | ⟨h1, h2, hc⟩
+  · rw [hc, mem_available]
+    have hex := (hne false).mp h1
+    constructor
+    · rintro ⟨hm, hb, ho⟩; exact ⟨hm, Or.inl ⟨hex, hb, (eligible_iff _ _).mpr ho⟩⟩
+    · rintro ⟨hm, hor⟩
+      rcases hor with ⟨_, hb, he⟩ | ⟨hno, _⟩ | ⟨hno, _⟩
+      · exact ⟨hm, hb, (eligible_iff _ _).mp he⟩
+      · obtain ⟨x, hx, hxb, hxe⟩ := hex; exact absurd hxe (hno x hx hxb)
+      · obtain ⟨x, hx, _, hxe⟩ := hex; exact absurd hxe (hno x hx)
+  · rw [hc, mem_available]
+    have hno := (hem false).mp h1
+    have hex := (hne true).mp h2
+    constructor
+    · rintro ⟨hm, hb, ho⟩; exact ⟨hm, Or.inr (Or.inl ⟨hno, hex, hb, (eligible_iff _ _).mpr ho⟩)⟩
+    · rintro ⟨hm, hor⟩
+      rcases hor with ⟨⟨x, hx, hxb, hxe⟩, _⟩ | ⟨_, _, hb, he⟩ | ⟨hnone, _⟩
+      · exact absurd hxe (hno x hx hxb)
+      · exact ⟨hm, hb, (eligible_iff _ _).mp he⟩
+      · obtain ⟨x, hx, _, hxe⟩ := hex; exact absurd hxe (hnone x hx)
+  · rw [hc, mem_failOpen]
+    have hnone : ∀ x ∈ bs, ¬ Eligible now x := by
+      intro x hx
+      cases hb : x.backup
+      · exact (hem false).mp h1 x hx hb
+      · exact (hem true).mp h2 x hx hb
+    constructor
+    · rintro ⟨hm, hn, hk⟩; exact ⟨hm, Or.inr (Or.inr ⟨hnone, hn, (okay_iff _ _).mp hk⟩)⟩
+    · rintro ⟨hm, hor⟩
+      rcases hor with ⟨_, _, he⟩ | ⟨_, _, _, he⟩ | ⟨_, hn, hk⟩
+      · exact absurd he (hnone b hm)
+      · exact absurd he (hnone b hm)
+      · exact ⟨hm, hn, (okay_iff _ _).mpr hk⟩
+
+/-! ### health results are recorded by address -/
+
+theorem updFirst_append_hit {p : Backend → Bool} {f : Backend → Backend} (l1 l2 : List Backend)
+    (h : ∃ y ∈ l1, p y = true) : updFirst p f (l1 ++ l2) = updFirst p f l1 ++ l2 := by
+  induction l1 with
+  | nil => obtain ⟨y, hy, _⟩ := h; simp at hy
+  | cons x t ih =>
+    simp only [List.cons_append, updFirst]
+    split
+    · rfl
+    · next hx =>
+      obtain ⟨y, hy, hp⟩ := h
+      simp only [List.mem_cons] at hy
+      rcases hy with hy | hy
+      · subst hy; exact absurd hp hx
+      · rw [ih ⟨y, hy, hp⟩]; rfl
+
+theorem updFirst_no_hit {p : Backend → Bool} {f : Backend → Backend} (l : List Backend)
+    (h : ∀ x ∈ l, p x = false) : updFirst p f l = l := by
+  induction l with
+  | nil => rfl
+  | cons x t ih =>
+    simp only [updFirst, h x (by simp), Bool.false_eq_true, if_false]
+    rw [ih (fun y hy => h y (List.mem_cons_of_mem _ hy))]
+
+theorem updFirst_eq_updAt_of_unique (f : Backend → Backend) (bs : List Backend) (i : Nat) (b : Backend)
+    (hb : bs[i]? = some b) (huniq : (bs.map (·.addr)).Nodup) :
+    updFirst (fun x => x.addr == b.addr) f bs = updAt f i bs := by
+  induction bs generalizing i with
+  | nil => simp at hb
+  | cons x t ih =>
+    cases i with
+    | zero => simp at hb; subst hb; simp [updAt, updFirst]
+    | succ i =>
+      simp only [List.getElem?_cons_succ] at hb
+      simp only [List.map_cons, List.nodup_cons] at huniq
+      have hne : (x.addr == b.addr) = false := by
+        have hm : b.addr ∈ t.map (·.addr) := List.mem_map.mpr ⟨b, List.mem_of_getElem? hb, rfl⟩
+        cases hx : x.addr == b.addr
+        · rfl
+        · have : x.addr = b.addr := by simpa using hx
+          exact absurd (this ▸ hm) huniq.1
+      simp [updAt, updFirst, hne, ih i hb huniq.2]
+
+/-- backends of cluster `c` (empty when the cluster is absent) -/
+def backendsOf (s : State) (c : Nat) : List Backend := ((s.get c).map (·.backends)).getD []
+
+theorem health_step_backends (s : State) (c a : Nat) (ok : Bool) (thr : Nat) :
+    backendsOf (step s (.health c a ok thr)).1 c =
+      updFirst (fun x => x.addr == a) (fun x => (recordCheck x ok thr).1) (backendsOf s c) := by
+  simp only [step, backendsOf]
+  cases hg : s.get c with
+  | none => simp [hg, updFirst]
+  | some l =>
+    simp only
+    cases hf : findBackend l a with
+    | none =>
+      simp only [hg, Option.map_some, Option.getD_some]
+      have : ∀ x ∈ l.backends, (x.addr == a) = false := by
+        intro x hx
+        have := List.find?_eq_none.mp hf x hx
+        simpa using this
+      rw [updFirst_no_hit _ this]
+    | some b => simp [get_put]
+
+/-- a run of health results for address `a` in cluster `c` -/
+def healthOps (c a : Nat) (rs : List (Bool × Nat)) : List Op := rs.map (fun r => Op.health c a r.1 r.2)
+
+theorem health_run_shadowed (c a : Nat) (rs : List (Bool × Nat)) (s : State) (l1 l2 : List Backend)
+    (hb : backendsOf s c = l1 ++ l2) (hhit : ∃ y ∈ l1, y.addr = a) :
+    ∃ l1', backendsOf (run s (healthOps c a rs)) c = l1' ++ l2 ∧ l1'.map (·.addr) = l1.map (·.addr) := by
+  induction rs generalizing s l1 with
+  | nil => exact ⟨l1, hb, rfl⟩
+  | cons r t ih =>
+    simp only [healthOps, List.map_cons, run, List.foldl_cons]
+    have hs := health_step_backends s c a r.1 r.2
+    rw [hb, updFirst_append_hit l1 l2 (by obtain ⟨y, hy, he⟩ := hhit; exact ⟨y, hy, by simp [he]⟩)] at hs
+    have hmap := map_addr_updFirst (addrPres_recordCheck r.1 r.2) (fun x => x.addr == a) l1
+    obtain ⟨l1', h1, h2⟩ := ih (step s (.health c a r.1 r.2)).1 _ hs (by
+      obtain ⟨y, hy, he⟩ := hhit
+      have : a ∈ (updFirst (fun x => x.addr == a) (fun x => (recordCheck x r.1 r.2).1) l1).map (·.addr) := by
+        rw [hmap]; exact List.mem_map.mpr ⟨y, hy, he⟩
+      obtain ⟨z, hz, hze⟩ := List.mem_map.mp this
+      exact ⟨z, hz, hze⟩)
+    exact ⟨l1', by simpa [healthOps, run] using h1, h2.trans hmap⟩
+
+theorem affinity_hrw (l1 l2 : BList) (now1 now2 n1 n2 k : Nat) (e1 e2 : Env)
+    (hp1 : l1.policy = .hrw n1) (hp2 : l2.policy = .hrw n2)
+    (hk1 : e1.key = some k) (hk2 : e2.key = some k) (hsc : e1.score = e2.score)
+    (hc : (candidates now1 l1.backends).map ident = (candidates now2 l2.backends).map ident) :
+    (selectChoices l1 now1 e1).2.map ident = (selectChoices l2 now2 e2).2.map ident := by
+  unfold selectChoices
+  simp only
+  rw [isEmpty_of_ident hc]
+  split
+  · rfl
+  · simp only [hp1, hp2, lbChoices, hk1, hk2, hsc]
+    have := maxFirst_ident (fun b => e2.score k b.addr b.weight)
+      (by intro x y hxy; simp [ident] at hxy; simp [hxy]) _ _ hc
+    generalize maxFirst (fun b => e2.score k b.addr b.weight) (candidates now1 l1.backends) = o1 at this
+    generalize maxFirst (fun b => e2.score k b.addr b.weight) (candidates now2 l2.backends) = o2 at this
+    cases o1 <;> cases o2 <;> simp at this ⊢
+    exact this
+
+theorem affinity_maglev (l1 l2 : BList) (now1 now2 n1 n2 k : Nat) (built : List Nat) (e1 e2 : Env)
+    (hp1 : l1.policy = .maglev built n1) (hp2 : l2.policy = .maglev built n2)
+    (hk1 : e1.key = some k) (hk2 : e2.key = some k) (hpf : e1.pref = e2.pref)
+    (hc : (candidates now1 l1.backends).map ident = (candidates now2 l2.backends).map ident) :
+    (selectChoices l1 now1 e1).2.map ident = (selectChoices l2 now2 e2).2.map ident := by
+  unfold selectChoices
+  simp only
+  rw [isEmpty_of_ident hc]
+  split
+  · rfl
+  · next hne =>
+    have hne1 : (candidates now1 l1.backends).isEmpty = false := by rw [isEmpty_of_ident hc]; simpa using hne
+    have hne2 : (candidates now2 l2.backends).isEmpty = false := by simpa using hne
+    simp only [hp1, hp2, lbChoices, hk1, hk2, hne1, hne2, Bool.false_eq_true, if_false]
+    have hb : (if built.isEmpty then (candidates now1 l1.backends).map (·.addr) else built) =
+        (if built.isEmpty then (candidates now2 l2.backends).map (·.addr) else built) := by
+      rw [map_addr_of_ident hc]
+    have hlk := maglevLookup_ident e1.pref
+      (if built.isEmpty then (candidates now1 l1.backends).map (·.addr) else built) _ _ hc
+    have hget := getElem?_ident (k % (candidates now1 l1.backends).length) _ _ hc
+    rw [← hpf, ← hb, ← length_of_ident hc]
+    cases h1 : maglevLookup e1.pref
+        (if built.isEmpty then (candidates now1 l1.backends).map (·.addr) else built) (candidates now1 l1.backends) with
+    | none =>
+      rw [h1] at hlk
+      cases h2 : maglevLookup e1.pref
+          (if built.isEmpty then (candidates now1 l1.backends).map (·.addr) else built) (candidates now2 l2.backends) with
+      | some b2 => rw [h2] at hlk; simp at hlk
+      | none =>
+        simp only
+        generalize (candidates now1 l1.backends)[k % (candidates now1 l1.backends).length]? = o1 at hget
+        generalize (candidates now2 l2.backends)[k % (candidates now1 l1.backends).length]? = o2 at hget
+        cases o1 <;> cases o2 <;> simp at hget ⊢
+        exact hget
+    | some b1 =>
+      rw [h1] at hlk
+      cases h2 : maglevLookup e1.pref
+          (if built.isEmpty then (candidates now1 l1.backends).map (·.addr) else built) (candidates now2 l2.backends) with
+      | none => rw [h2] at hlk; simp at hlk
+      | some b2 => rw [h2] at hlk; simpa using hlk
+
+theorem thm_selected_is_eligible (s0 : State) (ops : List Op) (c : Nat) (e : Env) (b : Backend)
+    (h : (step (run s0 ops) (.select c e)).2.picked = some b) :
+    ∃ l, (run s0 ops).get c = some l ∧ b ∈ l.backends ∧
+      (Eligible (run s0 ops).now b ∨
+        ((∀ x ∈ l.backends, ¬ Eligible (run s0 ops).now x) ∧ FailOpenOk (run s0 ops).now b)) := by
+  obtain ⟨l, hl, hc⟩ := select_spec h
+  obtain ⟨hm, hor⟩ := mem_candidates hc
+  refine ⟨l, hl, hm, ?_⟩
+  rcases hor with ho | ⟨hall, hn, hk⟩
+  · exact Or.inl ((eligible_iff _ _).mpr ho)
+  · exact Or.inr ⟨fun x hx => not_eligible_of _ _ (hall x hx), hn, (okay_iff _ _).mp hk⟩
+
+theorem thm_selected_is_eligible_sticky (s0 : State) (ops : List Op) (c st : Nat) (e : Env) (b : Backend)
+    (h : (step (run s0 ops) (.sticky c st e)).2.picked = some b) :
+    ∃ l, (run s0 ops).get c = some l ∧ b ∈ l.backends ∧
+      (Eligible (run s0 ops).now b ∨
+        ((step (run s0 ops) (.sticky c st e)).2.viaSticky = false ∧
+          (∀ x ∈ l.backends, ¬ Eligible (run s0 ops).now x) ∧ FailOpenOk (run s0 ops).now b)) := by
+  obtain ⟨l, hl, hor⟩ := sticky_spec h
+  refine ⟨l, hl, ?_⟩
+  rcases hor with ⟨hf, _⟩ | ⟨_, hv, hc⟩
+  · obtain ⟨hm, _, ho⟩ := findSticky_spec hf
+    exact ⟨hm, Or.inl ((eligible_iff _ _).mpr ho)⟩
+  · obtain ⟨hm, hor⟩ := mem_candidates hc
+    refine ⟨hm, ?_⟩
+    rcases hor with ho | ⟨hall, hn, hk⟩
+    · exact Or.inl ((eligible_iff _ _).mpr ho)
+    · exact Or.inr ⟨hv, fun x hx => not_eligible_of _ _ (hall x hx), hn, (okay_iff _ _).mp hk⟩
+
+theorem thm_never_closing_or_backing_off (s0 : State) (ops : List Op) (c : Nat) (e : Env) (b : Backend)
+    (h : (step (run s0 ops) (.select c e)).2.picked = some b) :
+    b.status = .normal ∧ b.retry.wait ≤ (run s0 ops).now - b.retry.last := by
+  obtain ⟨l, _, _, hor⟩ := thm_selected_is_eligible s0 ops c e b h
+  rcases hor with ⟨_, hn, hw⟩ | ⟨_, hn, hw⟩ <;> exact ⟨hn, hw⟩
+
+theorem thm_backoff_window (r : Retry) (now w now' : Nat) (heff : ¬ (now - r.last < r.wait)) :
+    (r.fail now w).okay now' = true ↔ w ≤ now' - now := by
+  simp [Retry.fail, heff, Retry.okay]
+
+theorem thm_backup_only_if_no_primary (s0 : State) (ops : List Op) (c : Nat) (e : Env) (b : Backend)
+    (h : (step (run s0 ops) (.select c e)).2.picked = some b) (hb : b.backup = true) :
+    ∀ l, (run s0 ops).get c = some l → ∀ x ∈ l.backends, x.backup = false → ¬ Eligible (run s0 ops).now x := by
+  obtain ⟨l, hl, hc⟩ := select_spec h
+  intro l' hl' x hx hxb
+  rw [hl] at hl'; cases hl'
+  exact not_eligible_of _ _ (candidates_backup hc hb x hx hxb)
+
+theorem thm_backup_only_if_no_primary_sticky (s0 : State) (ops : List Op) (c st : Nat) (e : Env) (b : Backend)
+    (h : (step (run s0 ops) (.sticky c st e)).2.picked = some b) (hb : b.backup = true)
+    (hv : (step (run s0 ops) (.sticky c st e)).2.viaSticky = false) :
+    ∀ l, (run s0 ops).get c = some l → ∀ x ∈ l.backends, x.backup = false → ¬ Eligible (run s0 ops).now x := by
+  obtain ⟨l, hl, hor⟩ := sticky_spec h
+  intro l' hl' x hx hxb
+  rw [hl] at hl'; cases hl'
+  rcases hor with ⟨_, hv'⟩ | ⟨_, _, hc⟩
+  · rw [hv] at hv'; cases hv'
+  · exact not_eligible_of _ _ (candidates_backup hc hb x hx hxb)
+
+theorem thm_sticky_wins (s : State) (c st : Nat) (e : Env) (l : BList) (b : Backend)
+    (hl : s.get c = some l) (hb : b ∈ l.backends) (hs : b.sticky = some st) (he : Eligible s.now b) :
+    ∃ b', (step s (.sticky c st e)).2.picked = some b' ∧ (step s (.sticky c st e)).2.viaSticky = true ∧
+      b' ∈ l.backends ∧ b'.sticky = some st ∧ Eligible s.now b' := by
+  obtain ⟨b', hf⟩ := findSticky_isSome (l := l) hb hs ((eligible_iff _ _).mp he)
+  obtain ⟨hm, hs', hc'⟩ := findSticky_spec hf
+  exact ⟨b', by simp [step, hl, hf, Out.picked], by simp [step, hl, hf, Out.viaSticky], hm, hs',
+    (eligible_iff _ _).mpr hc'⟩
+
+theorem thm_sticky_wins_unique (s : State) (c st : Nat) (e : Env) (l : BList) (b : Backend)
+    (hl : s.get c = some l) (hb : b ∈ l.backends) (hs : b.sticky = some st) (he : Eligible s.now b)
+    (huniq : ∀ x ∈ l.backends, ∀ y ∈ l.backends, x.sticky = some st → y.sticky = some st → x = y) :
+    (step s (.sticky c st e)).2.picked = some b := by
+  obtain ⟨b', hp, _, hm, hs', _⟩ := thm_sticky_wins s c st e l b hl hb hs he
+  rw [hp, huniq b' hm b hb hs' hs]
+
+theorem thm_counters_balanced (b : Backend) (ops : List COp) (b' : Backend) (out' : Nat)
+    (h0 : b.conns = 0) (h : crun (b, 0) ops = some (b', out')) :
+    b'.conns = out' ∧ (out' = 0 → b'.conns = 0) ∧ (b'.status = .closed → b'.conns = 0) := by
+  have hi : CInv (b, 0) := ⟨h0, fun _ => rfl⟩
+  have := cinv_run ops hi h
+  exact ⟨this.1, fun hz => this.1.trans hz, fun hc => this.1.trans (this.2 hc)⟩
+
+theorem thm_close_by_address_partial (l : BList) (i : Nat) (b : Backend) (hb : l.backends[i]? = some b)
+    (hn : b.status = .normal) (huniq : (l.backends.map (·.addr)).Nodup) :
+    (closeByAddr (incAt l i) b.addr).backends = l.backends := by
+  simp only [closeByAddr, incAt]
+  exact close_after_open_unique l.backends i b hb hn huniq
+
+theorem thm_removed_never_selected (s : State) (c a : Nat) (ops : List Op)
+    (hops : ∀ o ∈ ops, o.addsAddr c a = false) (e : Env) (b : Backend)
+    (h : (step (run (step s (.remove c a)).1 ops) (.select c e)).2.picked = some b) : b.addr ≠ a := by
+  have hn := noAddr_run ops _ (noAddr_remove s c a) hops
+  obtain ⟨l, hl, hc⟩ := select_spec h
+  exact hn l hl b (mem_candidates hc).1
+
+theorem thm_removed_never_selected_sticky (s : State) (c a st : Nat) (ops : List Op)
+    (hops : ∀ o ∈ ops, o.addsAddr c a = false) (e : Env) (b : Backend)
+    (h : (step (run (step s (.remove c a)).1 ops) (.sticky c st e)).2.picked = some b) : b.addr ≠ a := by
+  have hn := noAddr_run ops _ (noAddr_remove s c a) hops
+  obtain ⟨l, hl, hor⟩ := sticky_spec h
+  rcases hor with ⟨hf, _⟩ | ⟨_, _, hc⟩
+  · exact hn l hl b (findSticky_spec hf).1
+  · exact hn l hl b (mem_candidates hc).1
+
 end Sozu.Backends
